@@ -61,6 +61,11 @@ pub struct IrqObserver {
     pub delivered_after_unmask: u32,
     pub timer_reqs: u32,
     paused_model: bool,
+    /// digest of all memory taken at a boundary where an entry is imminent (iteration, digest)
+    pre_digest: Option<(u64, u64)>,
+    pub pre_post_compared: u32,
+    pub dynamic_vector_entries: u32,
+    table0: Vec<u32>,
 }
 
 impl IrqObserver {
@@ -89,6 +94,10 @@ impl IrqObserver {
             delivered_after_unmask: 0,
             timer_reqs: 0,
             paused_model: false,
+            pre_digest: None,
+            pre_post_compared: 0,
+            dynamic_vector_entries: 0,
+            table0: vec![],
         }
     }
 
@@ -133,6 +142,7 @@ impl Observer for IrqObserver {
             Some(p) => *p,
             None => {
                 self.prev_er = cpu.er;
+                self.table0 = (0..64u32).map(|v| Self::rd32(cpu, 4 * v)).collect();
                 return Ok(());
             }
         };
@@ -148,7 +158,69 @@ impl Observer for IrqObserver {
         self.exec_count += 1;
         let op0 = Self::rd(cpu, prev.pc);
         let op1 = Self::rd(cpu, prev.pc + 1);
-        let irq_entry = if row.sp == prev.sp.wrapping_sub(4) { g.handler_after_brn(row.pc).map(|h| h.clone()) } else { None };
+        // An interrupt entry: SP dropped by 4 and PC is right behind the BRN of the handler that SOME vector's table
+        // entry (as it is in memory now - guests rewrite entries at run time) points to. Which vector it was is decided
+        // among the candidates by what is outstanding.
+        let mut entry_vector: Option<u8> = None;
+        let irq_entry = if row.sp == prev.sp.wrapping_sub(4) && row.pc >= 2 {
+            let mut cands: Vec<u8> = Vec::new();
+            for v in 1..64u32 {
+                if (Self::rd32(cpu, 4 * v) & 0x00ff_ffff).wrapping_add(2) == row.pc {
+                    cands.push(v as u8);
+                }
+            }
+            match g.handler_after_brn(row.pc) {
+                Some(h) => {
+                    if cands.is_empty() {
+                        // PC is behind a handler's BRN with a fresh frame, but no vector leads here any more
+                        return Err(fail(mode, if mode == Mode::Delivery { "spurious-entry" } else { "vector" }, format!(
+                            "iteration {}: the handler at {:06x} was entered but no vector table entry points to it now (outstanding requests {:?} lead to {:?})",
+                            prev.iter, h.addr, self.pend, self.pend.iter().map(|v| Self::rd32(cpu, 4 * *v as u32) & 0x00ff_ffff).collect::<Vec<_>>()
+                        )));
+                    }
+                    let real_now = {
+                        let mut r = cpu.verif_pending();
+                        r.sort();
+                        r
+                    };
+                    let outstanding: Vec<u8> = cands.iter().copied().filter(|v| self.pend.contains(v)).collect();
+                    let timer = self.timer_irqs;
+                    let pick = outstanding
+                        .iter()
+                        .copied()
+                        .find(|v| {
+                            // consuming v must leave the model a sub-multiset of the real queue; what the real queue has
+                            // beyond that may only be requests the running timer raised meanwhile
+                            let mut m = self.pend.clone();
+                            let pos = m.iter().position(|x| x == v).unwrap();
+                            m.remove(pos);
+                            let mut r = real_now.clone();
+                            for x in &m {
+                                match r.iter().position(|y| y == x) {
+                                    Some(p) => {
+                                        r.remove(p);
+                                    }
+                                    None => return false,
+                                }
+                            }
+                            r.iter().all(|x| timer && matches!(x, 36 | 37 | 39))
+                        })
+                        .or(outstanding.first().copied())
+                        .unwrap_or(cands[0]);
+                    entry_vector = Some(pick);
+                    if self.table0.get(pick as usize).copied() != Some(Self::rd32(cpu, 4 * pick as u32)) {
+                        self.dynamic_vector_entries += 1;
+                    }
+                    let mut hh = h.clone();
+                    hh.vector = pick;
+                    Some(hh)
+                }
+                None => None,
+            }
+        } else {
+            None
+        };
+        let _ = entry_vector;
         let is_trapa = op0 == 0x57 && (op1 & 0x0f) == 0 && (1..=3).contains(&(op1 >> 4));
         let is_rte = op0 == 0x56 && op1 == 0x70;
 
@@ -209,6 +281,19 @@ impl Observer for IrqObserver {
                 }
             }
             self.streak = 0;
+            if mode == Mode::Frames && !self.timer_irqs {
+                if let Some((it, d0)) = self.pre_digest {
+                    if it == prev.iter {
+                        let fa = prev.sp.wrapping_sub(4);
+                        let d1 = digest_state(cpu, &g.dram_windows, &[(fa, fa + 4)]);
+                        // d0 was taken with the same exclusion (the frame address is known beforehand: SP - 4)
+                        if d0 != d1 {
+                            return Err(fail(mode, "entry-memory", format!("iteration {}: accepting vector {} changed memory outside the 4-byte frame at {:08x}", prev.iter, h.vector, fa)));
+                        }
+                        self.pre_post_compared += 1;
+                    }
+                }
+            }
             self.check_entry(cpu, g, &prev, row, h.vector as u32, prev.pc, h.addr + 2, hidx, matches!(h.kind, HandlerKind::Empty))?;
         } else if is_trapa && row.sp == prev.sp.wrapping_sub(4) {
             let n = (op1 >> 4) as u32;
@@ -277,21 +362,31 @@ impl Observer for IrqObserver {
                     self.streak = 0;
                 }
             }
-            // the real queue must hold exactly the outstanding requests
+        }
+        {
+            // the real queue must hold exactly the outstanding requests (C06: a request may only leave the queue by an entry)
             let mut real = cpu.verif_pending();
             let mut model = self.pend.clone();
             real.sort();
             model.sort();
             if real != model {
-                return Err(fail(mode, "queue", format!("iteration {}: outstanding requests per the delivery model {:?}, real queue {:?} - a request was lost, duplicated or invented", row.iter, model, real)));
+                return Err(fail(mode, if mode == Mode::Delivery { "queue" } else { "acceptance" }, format!("iteration {}: outstanding requests per the delivery model {:?}, real queue {:?} - a request was lost, duplicated or invented (or consumed without an entry)", row.iter, model, real)));
             }
+        }
+        if mode == Mode::Frames && !self.timer_irqs && !self.pend.is_empty() && row.ccr & 0x80 == 0 {
+            let fa = row.sp.wrapping_sub(4);
+            self.pre_digest = Some((row.iter, digest_state(cpu, &g.dram_windows, &[(fa, fa + 4)])));
         }
         self.max_depth = self.max_depth.max(self.stack.len());
         self.prev_er = cpu.er;
         Ok(())
     }
 
-    fn fired(&mut self, _cpu: &mut Cpu, g: &Guest, row: &Row, _idx: usize, act: &Action) {
+    fn fired(&mut self, cpu: &mut Cpu, g: &Guest, row: &Row, _idx: usize, act: &Action) {
+        if self.mode == Mode::Frames && !self.timer_irqs && row.ccr & 0x80 == 0 && matches!(act, Action::Irq(_) | Action::Burst(_)) && self.pre_digest.map(|p| p.0) != Some(row.iter) {
+            let fa = row.sp.wrapping_sub(4);
+            self.pre_digest = Some((row.iter, digest_state(cpu, &g.dram_windows, &[(fa, fa + 4)])));
+        }
         let mut inj = |v: u8, this: &mut Self| {
             this.pend.push(v);
             this.injected += 1;
@@ -456,37 +551,54 @@ fn handler_cost(k: &HandlerKind) -> u64 {
 pub fn generate(rng: &mut Rng, tier: Tier, frames: bool) -> Scn {
     let use_traps = rng.chance(if frames { 2 } else { 1 }, 3);
     let nvec = rng.range(1, 7) as usize;
-    let mut pool: Vec<u8> = (1..=63u8).filter(|v| !(use_traps && (9..=11).contains(v)) && ![36u8, 37, 39].contains(v)).collect();
-    rng.shuffle(&mut pool);
     let timer_irqs = !frames && rng.chance(1, 8);
+    // swarm switches of this run
+    let flood = rng.chance(1, 20); // one burst of 40-120 requests while masked
+    let dynamic = rng.chance(1, 3); // the guest rewrites vector entries at run time (stores, set_handler) and changes ER5
+    let io_stores = rng.chance(1, 3); // stores of arbitrary values to arbitrary I/O registers (interrupt priority, system control, ...)
+    let mut pool: Vec<u8> = (1..=63u8).filter(|v| !(use_traps && (9..=11).contains(v)) && !(timer_irqs && [36u8, 37, 39].contains(v))).collect();
+    rng.shuffle(&mut pool);
+    if rng.chance(1, 4) {
+        // make sure the timer's own vector numbers get requests from outside too
+        if let Some(p) = pool.iter().position(|v| [36u8, 37, 39].contains(v)) {
+            pool.swap(0, p);
+        }
+    }
     let mut handlers = Vec::new();
     for v in pool.iter().take(nvec) {
         let kind = match rng.below(10) {
             0 | 1 => HandlerKind::Empty,
             2 | 3 | 4 => HandlerKind::Count,
-            5 | 6 => HandlerKind::Unmask(rng.range(1, 30) as u16),
+            5 | 6 if !flood => HandlerKind::Unmask(rng.range(1, 30) as u16),
             7 => HandlerKind::Slow(rng.range(1, 30) as u16),
             _ => {
-                if use_traps {
+                if use_traps && !flood {
                     HandlerKind::Nested(rng.range(1, 3) as u8)
                 } else {
                     HandlerKind::Count
                 }
             }
         };
-        handlers.push(Handler { vector: *v, kind });
+        handlers.push(Handler { vector: *v, kind, at_zero: false });
     }
+    // 1 run in 12: one empty handler lives at address 0 and its table entry is all zero (a legal vector content)
+    if rng.chance(1, 12) {
+        if let Some(h) = handlers.iter_mut().find(|h| h.kind == HandlerKind::Empty) {
+            h.at_zero = true;
+        }
+    }
+    let n_irq_handlers = handlers.len();
     if use_traps {
         for n in 1..=3u8 {
-            handlers.push(Handler { vector: 8 + n, kind: if rng.chance(1, 2) { HandlerKind::Empty } else { HandlerKind::Count } });
+            handlers.push(Handler { vector: 8 + n, kind: if rng.chance(1, 2) { HandlerKind::Empty } else { HandlerKind::Count }, at_zero: false });
         }
     }
     if timer_irqs {
         for v in [36u8, 37, 39] {
-            handlers.push(Handler { vector: v, kind: HandlerKind::Count });
+            handlers.push(Handler { vector: v, kind: HandlerKind::Count, at_zero: false });
         }
     }
-    let irq_vectors: Vec<u8> = handlers.iter().map(|h| h.vector).filter(|v| !(use_traps && (9..=11).contains(v)) && ![36u8, 37, 39].contains(v)).collect();
+    let irq_vectors: Vec<u8> = handlers.iter().take(n_irq_handlers).map(|h| h.vector).collect();
 
     let nblocks = match tier {
         Tier::Quick => rng.range(3, 25),
@@ -498,10 +610,13 @@ pub fn generate(rng: &mut Rng, tier: Tier, frames: bool) -> Scn {
         blocks.push(Block::Store { addr: 0xffff84, val: rng.range(100, 200) as u8, short: true });
         blocks.push(Block::Store { addr: 0xffff86, val: rng.range(201, 255) as u8, short: true });
         blocks.push(Block::Store { addr: 0xffff80, val: 0xe0 | ((rng.below(2) as u8) << 3) | rng.range(2, 3) as u8, short: true });
+    } else if rng.chance(1, 4) {
+        // the timer stays stopped, but its status flags are set (static): an entry must not touch them
+        blocks.push(Block::Store { addr: 0xffff82, val: 0xe0 | (rng.u8() & 0x1f), short: true });
     }
     let mut masked_blocks = Vec::new();
     for _ in 0..nblocks {
-        let b = match rng.below(16) {
+        let b = match rng.below(22) {
             0..=4 => Block::Delay(rng.range(1, 40) as u16),
             5 | 6 => Block::Arith(rng.u8()),
             7 => Block::Call,
@@ -515,6 +630,19 @@ pub fn generate(rng: &mut Rng, tier: Tier, frames: bool) -> Scn {
             }
             11 | 12 if use_traps => Block::Trapa(rng.range(1, 3) as u8),
             13 => Block::Store { addr: SCRATCH_LO + rng.below(64) as u32, val: rng.u8(), short: false },
+            14 | 15 if dynamic && !irq_vectors.is_empty() => Block::SetVector { vector: *rng.pick(&irq_vectors), handler: rng.below(n_irq_handlers as u64) as usize, top: rng.u8() },
+            16 if dynamic && !irq_vectors.is_empty() => Block::SetHandler { vector: *rng.pick(&irq_vectors) as u32, handler: rng.below(n_irq_handlers as u64) as usize },
+            17 if dynamic => Block::LoadEr5(if rng.chance(1, 2) { rng.u32() } else { *rng.pick(&[0u32, 1, 0xffff_ffff, 0x0041_6900]) }),
+            18 | 19 if io_stores => {
+                // any I/O register except the timer's own (a running timer would raise requests nobody asked for)
+                let addr = loop {
+                    let a = if rng.chance(1, 2) { 0xfee000 + rng.below(0x100) as u32 } else { 0xffff20 + rng.below(0xca) as u32 };
+                    if !(0xffff80..=0xffff89).contains(&a) {
+                        break a;
+                    }
+                };
+                Block::Store { addr, val: if rng.chance(1, 2) { *rng.pick(&[0xffu8, 0x80, 0x01, 0x08, 0xf0, 0x0f]) } else { rng.u8() }, short: rng.chance(1, 2) }
+            }
             _ => Block::Delay(rng.range(1, 12) as u16),
         };
         blocks.push(b);
@@ -560,6 +688,11 @@ pub fn generate(rng: &mut Rng, tier: Tier, frames: bool) -> Scn {
             _ => Trigger::States(rng.below(est * 30 + 10)),
         };
         events.push(Event { trig, act });
+    }
+    if flood && !irq_vectors.is_empty() {
+        let n = rng.range(40, 120) as usize;
+        let trig = if !masked_blocks.is_empty() { Trigger::AtBlock { block: (*rng.pick(&masked_blocks)).min(guest.blocks.len() - 1), nth: 0 } } else { Trigger::Iter(rng.below(est + 2)) };
+        events.push(Event { trig, act: Action::Burst((0..n).map(|_| *rng.pick(&irq_vectors)).collect()) });
     }
     // pause episode with requests arriving while paused
     if rng.chance(1, 5) && !irq_vectors.is_empty() {
@@ -638,6 +771,14 @@ pub fn execute(scn: &Scn, stats: &mut Stats, mode: Mode) -> Verdict {
     add(stats, "probe.trap_entries", obs.trap_entries as u64);
     add(stats, "probe.rte_matched", obs.rte_matched as u64);
     add(stats, "probe.rte_crafted", obs.rte_crafted as u64);
+    add(stats, "probe.entries_through_rewritten_vector_entry", obs.dynamic_vector_entries as u64);
+    add(stats, "probe.entry_memory_compared_before_after", obs.pre_post_compared as u64);
+    if scn.guest.handlers.iter().any(|h| h.at_zero) && obs.entries.iter().zip(g.handlers.iter()).any(|(n, h)| h.addr == 0 && *n > 0) {
+        bump(stats, "probe.entry_through_all_zero_vector_entry");
+    }
+    if obs.burst_max >= 65 {
+        bump(stats, "probe.burst_ge_65_requests");
+    }
     if obs.max_depth >= 2 {
         bump(stats, "probe.nesting_depth_ge_2");
     }
